@@ -1,7 +1,7 @@
 (* C08 — Each endpoint accepts exactly the message orders the standard allows.
    Property theorems only; proofs live in Proofs/HandshakeProofs.v (stream stack) and
    Proofs/DHandshakeProofs.v (datagram stack). *)
-From V Require Import Model.Handshake Proofs.HandshakeProofs.
+From V Require Import Model.Handshake Proofs.HandshakeProofs Model.DHandshake Proofs.DHandshakeProofs.
 
 (* for every sequence of received records, of any length: a client completes exactly on the
    standard's language (ServerHello, Certificate, ServerKeyExchange, optional CertificateRequest,
@@ -56,6 +56,80 @@ Theorem C08_server_error_is_final : forall p pre post,
   s_st (srun p pre) = S_Err -> saccepts p (pre ++ post) = false.
 Proof. exact server_error_is_final. Qed.
 Print Assumptions C08_server_error_is_final.
+
+(* ------------------------------------------------------------------ datagram stack (DTLCP)
+   A datagram endpoint must drop what a lossy, reordering network can hand it (C19): records of
+   another epoch or with a replayed number, a ChangeCipherSpec it cannot use yet, handshake records
+   while the ChangeCipherSpec is awaited, retransmitted ClientHellos; the client first goes through
+   the cookie exchange.  Its language is the standard's flows modulo exactly these records
+   (dclegal / dslegal spell them out), for every sequence of any length: *)
+Theorem C08_dclient_language : forall p es, dcaccepts p es = dclegal p es.
+Proof. exact dclient_language. Qed.
+Print Assumptions C08_dclient_language.
+
+Theorem C08_dserver_language : forall p es, dsaccepts p es = dslegal p es.
+Proof. exact dserver_language. Qed.
+Print Assumptions C08_dserver_language.
+
+(* whatever is dropped, nothing outside the standard's order is consumed: a datagram endpoint
+   completes only if an ordered selection of the records it received is a sequence on which the
+   stream endpoint completes, i.e. (C08_client_language / C08_server_language) one of the
+   standard's flows with valid contents *)
+Theorem C08_dclient_refines_stream : forall p es,
+  dcaccepts p es = true -> exists core, sublist core es /\ caccepts p (map to_ev core) = true.
+Proof. exact dclient_refines_stream. Qed.
+Print Assumptions C08_dclient_refines_stream.
+
+Theorem C08_dserver_refines_stream : forall p es,
+  dsaccepts p es = true -> exists core, sublist core es /\ saccepts p (map to_ev core) = true.
+Proof. exact dserver_refines_stream. Qed.
+Print Assumptions C08_dserver_refines_stream.
+
+(* every sequence the stream client completes on, the datagram client completes on *)
+Theorem C08_dclient_extends_stream : forall p es,
+  caccepts p es = true -> dcaccepts p (map embed_c es) = true.
+Proof. exact dclient_extends_stream. Qed.
+Print Assumptions C08_dclient_extends_stream.
+
+(* records the record layer discards never change the verdict *)
+Theorem C08_dclient_ignores_dropped : forall p es, dcaccepts p es = dcaccepts p (filter not_old es).
+Proof. exact dclient_ignores_dropped. Qed.
+Print Assumptions C08_dclient_ignores_dropped.
+
+Theorem C08_dserver_ignores_dropped : forall p es, dsaccepts p es = dsaccepts p (filter not_old es).
+Proof. exact dserver_ignores_dropped. Qed.
+Print Assumptions C08_dserver_ignores_dropped.
+
+Theorem C08_dclient_no_early_appdata : forall p pre post,
+  dcaccepts p pre = false -> dcaccepts p (pre ++ DApp :: post) = false.
+Proof. exact dclient_no_early_appdata. Qed.
+Print Assumptions C08_dclient_no_early_appdata.
+
+Theorem C08_dserver_no_early_appdata : forall p pre post,
+  dsaccepts p pre = false -> dsaccepts p (pre ++ DApp :: post) = false.
+Proof. exact dserver_no_early_appdata. Qed.
+Print Assumptions C08_dserver_no_early_appdata.
+
+Theorem C08_dclient_error_is_final : forall p pre post,
+  dc_st (dcrun p pre) = DC_Main C_Err -> dcaccepts p (pre ++ post) = false.
+Proof. exact dclient_error_is_final. Qed.
+Print Assumptions C08_dclient_error_is_final.
+
+Theorem C08_dserver_error_is_final : forall p pre post,
+  ds_st (dsrun p pre) = DS_Main S_Err -> dsaccepts p (pre ++ post) = false.
+Proof. exact dserver_error_is_final. Qed.
+Print Assumptions C08_dserver_error_is_final.
+
+(* non-vacuity: a datagram server completes on a cookie round, a retransmitted hello and a stray
+   ChangeCipherSpec around the standard's flow, and not when the CertificateVerify is missing *)
+Example C08_dserver_examples :
+  dsaccepts (mkSP true)
+    [DHello true false false; DHello true false true; DHs Certificate true true; DHello true false true;
+     DHs ClientKeyExchange true false; DCcs; DHs CertificateVerify true false; DCcs; DOld; DHs Finished true false] = true /\
+  dsaccepts (mkSP true)
+    [DHello true false false; DHello true false true; DHs Certificate true true;
+     DHs ClientKeyExchange true false; DCcs; DHs Finished true false] = false.
+Proof. vm_compute. split; reflexivity. Qed.
 
 (* the ServerKeyExchange is part of every legal client flow (finding F1 was its omission) *)
 Example C08_skx_mandatory :
